@@ -568,7 +568,7 @@ func (s *stash) createBinding(name unistring.String, deletable bool) {
 		s.names = make(map[unistring.String]uint32)
 	}
 	if _, exists := s.names[name]; !exists {
-		idx := uint32(len(s.names)) | maskVar
+		idx := uint32(len(s.values)) | maskVar // not len(s.names): a binding may have been deleted
 		if deletable {
 			idx |= maskDeletable
 		}
